@@ -6,6 +6,7 @@ part=${1:-0}; of=${2:-1}; i=0
 for d in $(ls -d ../seeded/C*-* | sort -t- -k1,1 -k2,2n); do
   i=$((i+1)); [ $((i % of)) -eq "$part" ] || continue
   id=$(basename "$d"); pid=${id%%-*}; k=${id##*-}
+  if [ -n "$ONLY" ] && ! echo " $ONLY " | grep -q " $pid "; then continue; fi      # ONLY="C12 C08": restrict to some properties
   checks=$(/venv/bin/python -c "
 import json,sys
 m=json.load(open('$d/meta.json')); c=m.get('confirmed',{}).get('caught_by') or []
